@@ -848,6 +848,7 @@ pub fn run(cfg: &Cfg) -> Report {
           rep.hit("lexer:panic");
           let loc = LAST_PANIC.lock().ok().and_then(|g| g.clone()).map(|l| rel(&l)).unwrap_or_default();
           // the location of the *last* panic is only reliable right after the call; re-run
+          crate::util::note_case(&c.input);
           let loc = match located(|| dmntk_feel_parser::verif::tokenize(&scope_with(&c.keys), TT::StartExpression, &c.input, c.flags, 64)) {
             Err(l) => l,
             Ok(_) => loc,
